@@ -573,6 +573,41 @@ def parse_dict_cases():
     return out
 
 
+def natspec_lookup_cases():
+    """`annotation overrides apply only to their own contract`: the natspec handed to with_natspec for contract X is the documentation of
+    the ContractDefinition named exactly X in the file's AST (every artifact carries the AST of the whole source file)"""
+    import itertools
+
+    import halmos.build as hbuild
+    from contracts.common import replay_script
+
+    out = []
+
+    def harness(interp):
+        ctx = interp.ctx
+        names = ["Counter", "CounterTest", "CounterInvariantTest", "Count", "Other"]
+        bad = []
+        n = 0
+        for order in itertools.permutations(range(len(names)), 3):
+            nodes = [{"nodeType": "PragmaDirective", "name": "Counter"}]
+            for k in order:
+                nodes.append({"nodeType": "ContractDefinition", "name": names[k], "contractKind": "contract", "documentation": {"text": f"doc of {names[k]}"}, **({"abstract": True} if k == 4 else {})})
+            present = [names[k] for k in order]
+            for want in names:
+                n += 1
+                typ, doc = interp.call(hbuild.get_contract_type, [nodes, want], {})
+                if want in present:
+                    ok = doc == {"text": f"doc of {want}"} and typ == ("abstract contract" if want == "Other" else "contract")
+                else:
+                    ok = typ is None and doc is None
+                if not ok and len(bad) < 3:
+                    bad.append((present, want, typ, doc))
+        ctx.oblige(f"get_contract_type returns kind and documentation of the definition with exactly the requested name, (None, None) if there is none ({n} lookups over files with prefix-related names in every order)", z3.BoolVal(not bad), info={"first": str(bad[:1])[:300]})
+
+    out.append(Case(f"{PROP}/build.get_contract_type", "files defining contracts whose names are prefixes of each other", harness, replay=replay_script("natspec_of_prefix_named_contract.py", "one source file defining Counter, CounterTest and CounterInvariantTest, each with its own @custom:halmos annotation"), sources=("halmos.build:get_contract_type",)))
+    return out
+
+
 def build_cases(tier="quick"):
     # scope of a function annotation: each test's configuration is derived from the contract's, not from the
     # previous test's (the run_tests contract of the C20 pack)
@@ -580,7 +615,12 @@ def build_cases(tier="quick"):
     from contracts.common import replay_script
 
     ref = [Case(f"{PROP}/__main__.run_tests#annotation-scope", c.case, c.harness, replay=replay_script("annotation_scope.py", "two tests of one contract, only the first carries a @custom:halmos annotation"), sources=c.sources) for c in c20.main_cases() if c.unit.endswith("__main__.run_tests")]
-    return value_with_source_cases() + getattribute_cases() + solver_command_cases() + annotation_cases() + load_config_cases() + with_overrides_cases() + parse_dict_cases() + ref
+    # the consumers of the configuration read it and never write it: a layer's value is shared by every contract and test (C12's unit)
+    from contracts import c12
+    from contracts.common import rewrap
+
+    ref += rewrap(PROP, c12.dyn_sizes_cases(), "configuration-is-read-only")
+    return natspec_lookup_cases() + value_with_source_cases() + getattribute_cases() + solver_command_cases() + annotation_cases() + load_config_cases() + with_overrides_cases() + parse_dict_cases() + ref
 
 
 # ---------------------------------------------------------------------------------------
